@@ -551,6 +551,34 @@ def np_isclose(ip, args, kwargs):
     return sym.le(d, sym.add(atol, sym.mul(rtol, sym.absv(b))))
 
 
+def np_allclose(ip, args, kwargs):
+    """numpy.allclose(a, b): every |a_k - b_k| <= atol + rtol*|b_k| (element-wise, same shape or
+    a scalar against an array)"""
+    a, b = args[0], args[1]
+    rtol = kwargs.get('rtol', args[2] if len(args) > 2 else Fraction(1, 10**5))
+    atol = kwargs.get('atol', args[3] if len(args) > 3 else Fraction(1, 10**8))
+
+    def flat(v):
+        if isinstance(v, NDArr):
+            return [x for r in v.rows for x in r]
+        if isinstance(v, (list, tuple, CoefArr)):
+            out = []
+            for x in ip.iterate(v):
+                out += flat(x) if isinstance(x, (list, tuple, NDArr, CoefArr)) else [x]
+            return out
+        return None
+    fa, fb = flat(a), flat(b)
+    if fa is None and fb is None:
+        fa, fb = [a], [b]
+    elif fa is None:
+        fa = [a] * len(fb)
+    elif fb is None:
+        fb = [b] * len(fa)
+    if len(fa) != len(fb):
+        raise Unsupported("numpy.allclose with broadcasting")
+    return sym.And(*[sym.le(sym.absv(sym.sub(x, y)), sym.add(atol, sym.mul(rtol, sym.absv(y)))) for x, y in zip(fa, fb)])
+
+
 def np_clip(ip, args, kwargs):
     x, lo, hi = args
     return sym.If(sym.lt(x, lo), lo, sym.If(sym.lt(hi, x), hi, x))
@@ -701,6 +729,7 @@ def make_numpy(ip):
     ns['isnan'] = I.Builtin('isnan', np_isnan)
     ns['isfinite'] = I.Builtin('isfinite', lambda ip, a, k: not isinstance(a[0], I.NF))
     ns['isclose'] = I.Builtin('isclose', np_isclose)
+    ns['allclose'] = I.Builtin('allclose', np_allclose)
     ns['clip'] = I.Builtin('clip', np_clip)
     ns['interp'] = I.Builtin('interp', np_interp)
     ns['array'] = I.Builtin('array', np_array)
